@@ -26,6 +26,22 @@ theorem hdr_le_chunk : Gen.frameHeaderSize ≤ Gen.socketMaxIoChunk ∧ Gen.fram
 
 theorem chunk_pos : 1 ≤ Gen.socketMaxIoChunk ∧ 1 ≤ Gen.pipeMaxIoChunk := by decide
 
+/-- `stream.retry_errnos` is exactly the platform's would-block errnos (`errno.EAGAIN`, `errno.EWOULDBLOCK`,
+generated from the `errno` module, not from rpyc): both are retried, and nothing else is (an errno of a dead
+connection in that list would be retried for ever instead of ending in `EOFError`) -/
+theorem retry_errnos_are_wouldblock :
+    Gen.retryErrnos.contains Gen.eagain = true ∧ Gen.retryErrnos.contains Gen.ewouldblock = true ∧
+    Gen.retryErrnos.all (fun e => e == Gen.eagain || e == Gen.ewouldblock) = true := by decide
+
+/-- class relations of the interpreter whose consequences are written into the model: `socket.timeout` is a
+`socket.error` (so `write`'s `except socket.error` makes a timeout fatal: `writeLoop`), `socket.error` is an
+`EnvironmentError` (so `PipeStream`'s `except EnvironmentError` makes every scripted error fatal: `recvStep` with
+`retry = false`), `EOFError` is not a `socket.error` (so the `EOFError` of `ClosedFile` passes through
+`except socket.error` unchanged: `readExact` / `writeAll` on a closed stream) -/
+theorem exception_classes :
+    Gen.timeoutIsSocketError = true ∧ Gen.socketErrorIsEnvironmentError = true ∧ Gen.eofErrorIsSocketError = false := by
+  decide
+
 theorem hdrSize_pos : 0 < Gen.frameHeaderSize := by
   have := one_lt_flagRange
   have h2 : Gen.frameFlagWidth ≠ 0 := by
